@@ -27,6 +27,7 @@ func ZZ_C18_NoConnectionLeftBehind() {
 	vx.Config("diam.marshalMayFail", true)
 	vx.Config("diam.writeMayFail", true)
 	vx.Config("diam.answerMayBeLost", true)
+	vx.Config("diam.unmarshalMayFail", true) // a message that arrives but cannot be decoded (either side)
 	u, _ := zzUsageInd("u0", 1, 1, 1)
 	u.UsedUnitContainer[0].QuotaManagementIndicator = models.QuotaManagementIndicator_ONLINE_CHARGING
 	zzSmallUsage(&u)
